@@ -31,6 +31,34 @@ CHECKS = {
         'text': 'split_curve / split_surface_u|v at any interior parameter and decompose_curve / decompose_surface(u|v|uv): every piece equals the original under the affine map of its domain for all local parameters, nets, weights; input unmodified; domain ends rejected; piece count/order/Bezier knot vectors as specified.',
         'note': COMMON_NOTE + 'Bounds: curves p<=3 (4), surfaces to (3,2) with unequal degrees and >=2 interior knots; snap-zone precondition on the split parameter.',
     },
+    'C08': {
+        'text': 'degree_elevation for p=1..8, num=1..4 (points of dimension 2-4 and rows of points): the elevated polygon defines the same Bezier curve for ALL control points and parameters (Bernstein oracle), ends fixed, stepwise == direct; degree_reduction of an exact elevation restores the polygon for every degree 2..10; non-Bezier input / num<=0 rejected.',
+        'note': COMMON_NOTE + 'Bounds: degrees 1..8 (10), num 1..4; one path per instance (no data-dependent branches).',
+    },
+    'C09': {
+        'text': 'All setter histories of length <= 3 over {ctrlpts, weights, ctrlptsw, set_ctrlpts} (with and without intermediate reads) on NURBS curve/surface/volume keep ctrlptsw == (P w, w), ctrlpts == P, weights == w for all symbolic values; helper conversions mutually inverse; GridWeighted applies each point its own weight and follows the weight setter; bspline<->nurbs conversions and nurbs_to_bspline on genuinely rational input evaluate identically; weight scaling moves no point.',
+        'note': COMMON_NOTE + 'Bounds: curve 4 pts, surface 2x3, volume 2x2x3 (+larger in thorough); grids up to 3x2 (4x3).',
+    },
+    'C10': {
+        'text': 'translate / scale / rotate(axis 0,1,2) on curves, surfaces, volumes and containers, in place or not: every evaluated point moves by the affine map (rotation: symbolic (cos, sin) on the unit circle = any angle, about the start point of the first shape), weights/knots unchanged, input untouched unless inplace.',
+        'note': COMMON_NOTE + 'Bounds: degrees <= 3, containers of 2, clamped and unclamped curves.',
+    },
+    'C11': {
+        'text': 'Assume-guarantee: (1) compute_params_curve/surface equal the chord-length/centripetal definition (symbolic data, nested square roots) and satisfy their contract, compute_knot_vector(2) clamped/non-decreasing; (2) with the parameter functions replaced by a stub returning SYMBOLIC increasing parameters (n<=4) or fixed rational families (n<=8/12), interpolate_curve/surface pass through every data point and approximate_curve/surface interpolate ends/corners and satisfy the normal equations, for all data points.',
+        'note': COMMON_NOTE + 'End-to-end runs with symbolic chord-length parameters are out of reach; 13..40 data points outside.',
+    },
+    'C12': {
+        'text': 'Bounded histories read-all ; mutate ; read-all (every public mutator, symbolic mutator arguments) on BSpline/NURBS curves, surfaces, volumes: every derived view (ctrlpts, weights, ctrlptsw, ctrlpts2d, evalpts, sample sizes, tessellation vertices/faces, bbox) equals the view of a fresh object built from the definition; deep copies independent in both directions; container aggregates.',
+        'note': COMMON_NOTE + 'Histories of length 3 (quick) / 4 with ordered mutator pairs (thorough). Known finding: container evalpts cache after editing an element.',
+    },
+    'C13': {
+        'text': 'With every control point its own symbol and pairwise different sizes: ctrlpts2d, Surface/VolumeManager, find_ctrlpts, flips, transpose, extract_curves/construct_surface, extract_surfaces/construct_volume (u,v,w), extract_isosurface and sweep_vector all address the point the evaluators (== Cox-de Boor definition) use for the same (u,v,w).',
+        'note': COMMON_NOTE + 'Bounds: nets 2x3, 3x2, 3x4, 2x3x4, 3x2x2, 4x3x2; the all-sizes AST index check announced in DESIGN 2.9 was not built.',
+    },
+    'C14': {
+        'text': 'export -> import round trips with every number a symbol printed as an opaque token: JSON (curves, surfaces with spline/freeform/container trims, volumes, containers of 1-3), smesh, vmesh, txt (1-D/2-D, custom separators), csv, compatibility *_file helpers: degrees, sizes, knot vectors, control points, weights, delta, trims and evaluated points identical; documented row/column layout of the files.',
+        'note': COMMON_NOTE + 'File system = in-memory map, json = real json with token strings (symbolic mode); real files / real json in float replay. YAML/libconfig not installed.',
+    },
     'C16': {
         'text': 'lu_solve / lu_factor / matrix_inverse / matrix_determinant / matrix_pivot / lu_decomposition satisfy A x = b, A A^-1 = I, Leibniz, genuine permutation, L U = A for ALL symbolic matrices of the stated sizes on every pivoting path; diagonally dominant and collocation matrices always return; two-call histories (memoised identity matrix); vector/matrix helpers, binomial, linspace, frange equal their definitions.',
         'note': COMMON_NOTE + 'Bounds: n<=3 (4 for lu_solve), pivoting routines n=3 partly concrete in quick; results claimed only when a result is returned. Known finding: matrix_determinant on 3x3 with a zero pivot after static pivoting.',
@@ -40,9 +68,17 @@ CHECKS = {
         'note': COMMON_NOTE + 'num_procs (multiprocessing schedules) is NOT covered by this technique. CrossHair verdict trusted for the str->int conversion; Bounds: curves p<=3, surfaces degrees<=2 (3,2), one volume.',
         'technique': 'bounded symbolic execution + z3 (pairs of configurations); CrossHair symbolic execution of the AST-extracted lru_cache maxsize expressions over a symbolic environment string',
     },
+    'C18': {
+        'text': 'On every path the evaluated coordinate is exhibited as sum_j c_j Q_j over the active control points only, with identical coefficients for all coordinates, sum c_j = 1 and c_j >= 0 (z3), i.e. membership in the convex hull; bounding box contains all control points and is attained; clamped shapes start/end at corner control points; sampled length >= chord and <= control polygon (where z3 decides).',
+        'note': COMMON_NOTE + 'Bounds: curves p<=3 (4), surfaces to (2,2) (rational to (2,1)), volumes (1,1,2); bbox n<=4 with two symbolic points; length sample sizes 2-3.',
+    },
     'C19': {
         'text': '__eq__/__ne__ executed on pairs that differ in exactly one component by a symbolic delta (every homogeneous coordinate, weight, knot) or in a discrete component (degree, size, kind, rationality, dimension): equal only if |delta| < 1e-3, unequal only if delta != 0, symmetric, reflexive, deep copies equal.',
         'note': COMMON_NOTE + 'The property leaves the tolerance open; 1e-3 is demanded as an upper bound on it. Shapes: curve p2, surface (1,2), volume (1,1,1) (+ larger in thorough).',
+    },
+    'C20': {
+        'text': 'ray.intersect: 2-D symbolic rays (status and Cramer parameters), 3-D constructed intersecting / skew / parallel pairs; is_left == determinant; wn_poly == orientation-sign oracle on fully symbolic triangles and == even-odd crossing oracle for symbolic query points on concrete grid polygons; convex_hull (ccw, all points left of every edge); voxel membership with the documented padding, voxel grids cover the box, voxelize fills exactly the hit cells; find_ctrlpts returns exactly the points with non-vanishing basis functions.',
+        'note': COMMON_NOTE + 'Fully symbolic polygons only for triangles; voxel grids 2..3 (4); num_procs>1 not covered.',
     },
 }
 
